@@ -123,6 +123,8 @@ def run_pty(c):
     """type the prefix, TAB, (closing quote for a directory inside quotes), Enter; return the argv the helper got"""
     files = {n: "" for n, isdir in c["entries"].items() if not isdir}
     dirs = [n for n, isdir in c["entries"].items() if isdir]
+    if c["variant"] == "sub":
+        files[c["name"] + "/qq"] = ""
     try:
         s = ptydrv.LineSession(files=files, dirs=dirs)
     except ptydrv.Unsettled as e:
@@ -134,6 +136,18 @@ def run_pty(c):
             return {"unsettled": "after TAB"}
         is_dir = c["entries"][c["name"]]
         closing = ""
+        if c["variant"] == "sub":
+            # second step: the first letter of the file inside the completed directory, TAB (a file: the completer closes the quote)
+            ok, t1b = s.send("q\t", timeout=10)
+            if not ok:
+                return {"unsettled": "after the second TAB"}
+            t1 += t1b
+            ok, t2 = s.send("\r", timeout=10)
+            if not ok:
+                s.send("\x03", timeout=5)
+                return {"argv": None, "screen": (t1 + t2).decode("utf-8", "replace")[-300:], "stuck": True}
+            recs = [r for r in s.log() if r.get("h") == "pa"]
+            return {"argv": recs[0].get("argv") if len(recs) == 1 else None, "nrec": len(recs), "screen": (t1 + t2).decode("utf-8", "replace")[-300:]}
         if c["variant"] == "shared":
             # several candidates: the common prefix (= the name) was inserted without suffix; close an open quote
             closing = {"unq": "", "sq": "'", "dq": '"'}[c["ctx"]]
@@ -162,6 +176,8 @@ def pty_ok(c, o):
     want = c["name"] + ("/" if c["entries"][c["name"]] and c["variant"] != "shared" else "")
     if c["variant"] == "cd":
         want = c["name"] + "/"
+    if c["variant"] == "sub":
+        want = c["name"] + "/qq"
     return o.get("argv") == [want]
 
 
@@ -248,6 +264,13 @@ def runner(rep, tier, seed, replay):
     # which completer the line editor picks (cd: directories only) is decided by the real dispatch in the binary only:
     # every `cd` case is typed at the pty
     to_run += [i for i in okidx if cases[i]["variant"] == "cd"]
+    # a file inside a completed directory (two completions on one word): for directories whose own name round-trips
+    subs = [i for i in okidx if cases[i]["variant"] == "dir"]
+    rnd.shuffle(subs)
+    for i in subs[:(30 if tier == "quick" else 400)]:
+        c2 = dict(cases[i], variant="sub", feat=dict(cases[i]["feat"], variant="sub"))
+        cases.append(c2)
+        to_run.append(len(cases) - 1)
     to_run = sorted(set(to_run))
     log("[C20] pty layer: %d mismatch clusters, %d sessions" % (len(clusters), len(to_run)))
 
